@@ -57,6 +57,19 @@ func nameAddrFields(na *NameAddr) string {
 	return hx(na.DisplayName) + " " + hx(na.Addr.String())
 }
 
+// twice: decoding is a function of the text. The handler decodes, reports, and then consumes / modifies the
+// decoded value (deferred); running it a second time on the same text must give the same report.
+func twice(h func(a []string) string) func(a []string) string {
+	return func(a []string) string {
+		first := h(a)
+		second := h(a)
+		if first != second {
+			return "decode-depends-on-history " + first + " | " + second
+		}
+		return first
+	}
+}
+
 func init() {
 	// ---- stdlib micro-correspondence ----
 	vReg("std split", func(a []string) string {
@@ -125,11 +138,20 @@ func init() {
 		as.Write(&buf)
 		return "ok " + hx(as.String()) + " " + hx(buf.String()) + " " + addrSpecFields(as)
 	})
-	vReg("codec via", func(a []string) string {
+	vReg("codec via", twice(func(a []string) string {
 		v, err := ParseVia(unhx(a[0]))
 		if err != nil {
 			return "err"
 		}
+		defer func() {
+			if p, e := v.GetParam(0); e == nil {
+				p.SetReceived("203.0.113.9")
+				p.SetParam("rport", "9")
+			}
+			for v.Size() > 0 {
+				v.PopViaParam()
+			}
+		}()
 		var sb strings.Builder
 		sb.WriteString("ok " + hx(v.String()) + " " + strconv.Itoa(v.Size()))
 		for i := 0; i < v.Size(); i++ {
@@ -140,7 +162,7 @@ func init() {
 			sb.WriteString(fmt.Sprintf(" %s %s %s %s %d %d %s %s %s %s %s", hx(p.ProtocolName), hx(p.ProtocolVersion), hx(p.Transport), hx(p.Host), p.port, p.GetPort(), hx(p.GetSentBy()), optHx(br, e1), optHx(rc, e2), optInt(rp, e3), kvList(p.Params)))
 		}
 		return sb.String()
-	})
+	}))
 	// codec viastamp <via text> <ip> <port>: decode a Via header, stamp received/rport on its FIRST entry the
 	// way handleRawMessage does, and re-encode: every other entry and parameter must come back untouched
 	vReg("codec viastamp", func(a []string) string {
@@ -171,11 +193,17 @@ func init() {
 		}
 		return sb.String()
 	}
-	vReg("codec route", func(a []string) string {
+	vReg("codec route", twice(func(a []string) string {
 		r, err := ParseRoute(unhx(a[0]))
 		if err != nil {
 			return "err"
 		}
+		defer func() {
+			// consume the decoded value the way the proxy does: a later decoding of the same text must not notice
+			for r.GetRouteParamCount() > 0 {
+				r.PopRouteParam()
+			}
+		}()
 		var buf bytes.Buffer
 		r.Write(&buf)
 		if buf.String() != r.String() {
@@ -185,7 +213,7 @@ func init() {
 			p, _ := r.GetRouteParam(i)
 			return p.GetAddress(), p.rrParam
 		}, r.String())
-	})
+	}))
 	vReg("codec rr", func(a []string) string {
 		r, err := ParseRecordRoute(unhx(a[0]))
 		if err != nil {
